@@ -5,12 +5,12 @@ package main
 
 import (
 	"fmt"
-	"os"
 	"go/ast"
 	"go/constant"
 	"go/token"
 	"go/types"
 	"golang.org/x/tools/go/ssa"
+	"os"
 	"strconv"
 	"strings"
 )
